@@ -263,6 +263,41 @@ func ruleBatchNoLoss(r *core.Reporter) {
 		} else {
 			r.Held(key+"/fresh-slice", 1, "batch slices are never re-sliced in place")
 		}
+		// (4) the time-triggered flush keeps firing: a periodic ticker, or a one-shot timer re-armed on every way
+		// through its arm (a timer that fires on an empty batch and is not reset never fires again: a trailing group
+		// smaller than the batch size waits for ever)
+		for _, si := range ir.Selects(fn) {
+			for _, arm := range si.Arms {
+				if arm.State.Dir != types.RecvOnly || arm.Body == nil {
+					continue
+				}
+				tn, f, okf := fieldOfLoad(arm.State.Chan)
+				if !okf || f != "C" {
+					continue
+				}
+				switch tn {
+				case "time.Ticker":
+					r.Held(key+"/flush-clock", 1, "time-triggered flush driven by a periodic ticker")
+				case "time.Timer":
+					var timer ssa.Value
+					if u, isU := arm.State.Chan.(*ssa.UnOp); isU {
+						if fa, isFA := u.X.(*ssa.FieldAddr); isFA {
+							timer = fa.X
+						}
+					}
+					rearm := func(in ssa.Instruction) bool {
+						c, ok := in.(*ssa.Call)
+						return ok && ir.IsCallTo(c, "(*time.Timer).Reset") && (timer == nil || ir.SameValue(c.Call.Args[0], timer))
+					}
+					sel := si.Sel
+					if _, again := ir.PathExists([]ir.Pt{{B: arm.Body, I: 0}}, ir.Opts{Stop: rearm}, func(in ssa.Instruction) bool { return in == ssa.Instruction(sel) }); again {
+						r.Violated(key+"/flush-clock", p.InstrPos(arm.Body.Instrs[0]), "the flush deadline is a one-shot timer and a way through its arm (it fired on an empty batch) does not re-arm it: after the first idle period it never fires again, items that do not fill a whole batch are never handed to the queue")
+					} else {
+						r.Held(key+"/flush-clock", 1, "one-shot flush timer re-armed on every way through its arm")
+					}
+				}
+			}
+		}
 	}
 	r.Floor("batch receivers", n, 4)
 	// dispatchers
